@@ -169,3 +169,22 @@ func Decode(body []byte) (*GQLResponse, error) {
 	}
 	return &r, nil
 }
+
+// PanicSite returns the first pebbles function on a recovered stack (stable part of a panic signature).
+func PanicSite(stack string) string {
+	for _, line := range strings.Split(stack, "\n") {
+		if i := strings.Index(line, "github.com/buildbuildio/pebbles"); i >= 0 && !strings.HasPrefix(strings.TrimSpace(line), "/") {
+			fn := line[i+len("github.com/buildbuildio/pebbles"):]
+			if j := strings.Index(fn, "("); j > 0 {
+				// keep receiver types like (*T).Method
+				if k := strings.LastIndex(fn, "("); k > 0 && strings.HasSuffix(fn[:k], ")") == false {
+					fn = fn[:k]
+				}
+			}
+			fn = strings.TrimPrefix(fn, "/")
+			fn = strings.TrimPrefix(fn, ".")
+			return strings.TrimSpace(fn)
+		}
+	}
+	return "unknown"
+}
